@@ -576,6 +576,143 @@ def read_deck_item(path):
     return honours
 
 
+
+# ----------------------------------------------------------------------------
+# users of the unit machinery outside UnitSystem.cpp (-> Gen/UnitsUse.lean)
+
+def read_fieldprops_units(path):
+    """FieldProps.hpp: {"KW", keyword_info<double>{}...unit_string("...")...} -> [(section, kw, unit)]"""
+    src = strip_comments_keep_strings(open(path).read())
+    out = []
+    # namespaces GRID / EDIT / PROPS / SOLUTION / SCHEDULE ... enclose the tables
+    ns_pos = [(m.start(), m.group(1)) for m in re.finditer(r"namespace\s+(\w+)\s*\{", src)]
+    for m in re.finditer(r'\{\s*"(\w+)"\s*,\s*keyword_info\s*<\s*double\s*>\s*\{\s*\}((?:\s*\.\s*\w+\s*\((?:[^()"]|"[^"]*")*\))*)\s*\}', src):
+        kw, chain = m.group(1), m.group(2)
+        us = re.findall(r'\.\s*unit_string\s*\(\s*"([^"]*)"\s*\)', chain)
+        if len(us) > 1:
+            raise TranslateError(f"FieldProps.hpp: {kw} has two unit_string() calls")
+        if us:
+            sec = [n for p, n in ns_pos if p < m.start()]
+            out.append((sec[-1] if sec else "", kw, us[0]))
+    n_calls = len(re.findall(r'\.\s*unit_string\s*\(\s*"', src))
+    if n_calls != len(out) or not out:
+        raise TranslateError(f"FieldProps.hpp: {n_calls} unit_string(\"...\") calls but {len(out)} table entries read")
+    return out
+
+
+def read_uda_dim(cpp_path, measures):
+    src = strip_comments_keep_strings(open(cpp_path).read())
+    body = function_body(src, r"Dimension\s+UnitSystem::uda_dim\s*\(\s*const\s+UDAControl\s+\w+\s*\)\s*const\s*\{", "uda_dim")
+    sw = re.search(r"switch\s*\(\s*\w+\s*\)\s*\{", body)
+    if not sw:
+        raise TranslateError("UnitSystem::uda_dim: no switch")
+    rest = body[sw.end():]
+    out, pending = [], []
+    pos = 0
+    tok = re.compile(r"case\s+UDAControl::(\w+)\s*:|return\s+this->getDimension\s*\(\s*UnitSystem::measure::(\w+)\s*\)\s*;|default\s*:")
+    for m in tok.finditer(rest):
+        gap = rest[pos:m.start()].strip()
+        if gap:
+            raise TranslateError(f"UnitSystem::uda_dim: unexpected code in switch: {gap[:60]!r}")
+        pos = m.end()
+        if m.group(1):
+            pending.append(m.group(1))
+        elif m.group(2):
+            if m.group(2) not in measures or not pending:
+                raise TranslateError("UnitSystem::uda_dim: return without case / unknown measure " + m.group(2))
+            out += [(c, m.group(2)) for c in pending]
+            pending = []
+        else:
+            if pending:
+                raise TranslateError("UnitSystem::uda_dim: case labels fall through to default")
+            break
+    else:
+        raise TranslateError("UnitSystem::uda_dim: no default label")
+    if not re.match(r"\s*throw\b", rest[pos:]):
+        raise TranslateError("UnitSystem::uda_dim: default no longer throws")
+    if not out:
+        raise TranslateError("UnitSystem::uda_dim: no cases read")
+    return out
+
+
+def read_summary_unit_algebra(path, measures):
+    """Summary.cpp mul_unit / div_unit: (a, b, result) rules, in source order"""
+    src = strip_comments_keep_strings(open(path).read())
+    res = {}
+    for fn, a, b in (("mul_unit", "lhs", "rhs"), ("div_unit", "denom", "div")):
+        body = function_body(src, r"measure\s+" + fn + r"\s*\(\s*measure\s+" + a + r"\s*,\s*measure\s+" + b + r"\s*\)\s*\{", fn)
+        rules = []
+        for seg in re.split(r";", body):
+            r = re.search(r"return\s+measure::(\w+)\s*$", seg.strip())
+            conj = re.findall(r"(\w+)\s*==\s*measure::(\w+)\s*&&\s*(\w+)\s*==\s*measure::(\w+)", seg)
+            if conj and not r:
+                raise TranslateError(f"Summary.cpp {fn}: condition without `return measure::X`")
+            for (v1, m1, v2, m2) in conj:
+                d = {v1: m1, v2: m2}
+                if set(d) != {a, b}:
+                    raise TranslateError(f"Summary.cpp {fn}: condition on unexpected variables {v1}, {v2}")
+                for mm in (m1, m2, r.group(1)):
+                    if mm not in measures:
+                        raise TranslateError(f"Summary.cpp {fn}: unknown measure {mm}")
+                rules.append((d[a], d[b], r.group(1)))
+        if not rules:
+            raise TranslateError(f"Summary.cpp {fn}: no rules read")
+        res[fn] = rules
+    return res["mul_unit"], res["div_unit"]
+
+
+def read_parse_guard(cpp_path):
+    """does UnitSystem::parse refuse a string that ends in its only '/' before it indexes parts[1]?"""
+    src = strip_comments_keep_strings(open(cpp_path).read())
+    body = function_body(src, r"Dimension\s+UnitSystem::parse\s*\(\s*const\s+std::string\s*&\s*dimension\s*\)\s*const\s*\{", "parse")
+    if not re.search(r"parts\s*\[\s*1\s*\]", body) or "split_string" not in body:
+        raise TranslateError("UnitSystem::parse: no longer `split_string(dimension, '/')` + `parts[1]` — review parseUB")
+    head = body[:re.search(r"parts\s*\[\s*1\s*\]", body).start()]
+    guard = re.search(r"if\s*\(\s*divCount\s*==\s*1\s*&&\s*dimension\s*\.\s*back\s*\(\s*\)\s*==\s*'/'\s*\)\s*throw\b", head)
+    if not guard and re.search(r"\.size\s*\(\s*\)|\.back\s*\(|\.empty\s*\(", head):
+        raise TranslateError("UnitSystem::parse: an unrecognised size/back/empty test precedes parts[1] — review parseUB")
+    return bool(guard)
+
+
+def generate_use(repo, measures, listed, item_dims):
+    fp = os.path.join(repo, "opm/input/eclipse/EclipseState/Grid/FieldProps.hpp")
+    us_cpp = os.path.join(repo, "opm/input/eclipse/Units/UnitSystem.cpp")
+    summ = os.path.join(repo, "opm/output/eclipse/Summary.cpp")
+    fprops = read_fieldprops_units(fp)
+    uda = read_uda_dim(us_cpp, measures)
+    mul, div = read_summary_unit_algebra(summ, measures)
+    guard = read_parse_guard(us_cpp)
+    ks = sorted(listed)
+    pos = {x: i for i, x in enumerate(ks)}
+    ik = sorted(item_dims)
+    o = ["/- GENERATED by translate/units.py — users of the unit machinery: keyword items (as indices into",
+         "   `Gen.Units.keywordDimStrings`), FieldProps.hpp unit strings, UnitSystem::uda_dim, Summary.cpp",
+         "   mul_unit/div_unit.  Do not edit.  Pure data. -/",
+         "import OpmVerif.Gen.Units",
+         "namespace OpmVerif.Gen.UnitsUse", "",
+         "/-- per entry of `Gen.Units.keywordItemDims` (same order): positions of its dimension strings in",
+         "`Gen.Units.keywordDimStrings` -/",
+         "def keywordItemDimIdx : List (List Nat) := ["]
+    o += ["  [" + ", ".join(str(pos[d]) for d in item_dims[k]) + "]" + ("," if n + 1 < len(ik) else "") for n, k in enumerate(ik)]
+    o += ["]", "",
+          "/-- FieldProps.hpp: (section namespace, keyword, unit string) of every `keyword_info<double>` with a unit -/",
+          "def fieldPropsUnits : List (String × String × String) := ["]
+    o += [f"  ({lean_str(a)}, {lean_str(b)}, {lean_str(c)})" + ("," if n + 1 < len(fprops) else "") for n, (a, b, c) in enumerate(fprops)]
+    o += ["]", "",
+          "/-- `UnitSystem::uda_dim`: (UDAControl, measure); every other control throws -/",
+          "def udaDim : List (String × String) := ["]
+    o += [f"  ({lean_str(a)}, {lean_str(b)})" + ("," if n + 1 < len(uda) else "") for n, (a, b) in enumerate(uda)]
+    o += ["]", "",
+          "/-- Summary.cpp `mul_unit`: (lhs, rhs, result) -/",
+          "def summaryMulUnit : List (String × String × String) := [" + ", ".join(f"({lean_str(a)}, {lean_str(b)}, {lean_str(c)})" for a, b, c in mul) + "]", "",
+          "/-- Summary.cpp `div_unit`: (numerator, denominator, result) -/",
+          "def summaryDivUnit : List (String × String × String) := [" + ", ".join(f"({lean_str(a)}, {lean_str(b)}, {lean_str(c)})" for a, b, c in div) + "]", "",
+          "/-- does `UnitSystem::parse` throw for a string that ends in its only `/` BEFORE it indexes `parts[1]`?",
+          "`false`: `parts[1]` of a one-element vector is read (undefined behaviour). -/",
+          f"def parseRejectsTrailingSlash : Bool := {'true' if guard else 'false'}", "",
+          "end OpmVerif.Gen.UnitsUse", ""]
+    return {"module": "OpmVerif.Gen.UnitsUse", "file": "UnitsUse.lean", "text": "\n".join(o), "sources": [fp, us_cpp, summ]}
+
 # ----------------------------------------------------------------------------
 
 def generate(repo):
@@ -651,5 +788,6 @@ def generate(repo):
           "SI-state element back)?  `false`: the generic `get<T>` returns `dval[i]` as it is. -/",
           f"def deckItemGetHonoursRawData : Bool := {'true' if honours else 'false'}"]
     o += ["", "end OpmVerif.Gen.Units", ""]
-    return {"module": "OpmVerif.Gen.Units", "file": "Units.lean", "text": "\n".join(o),
-            "sources": [hpp, us_hpp, us_cpp, deck_item_cpp] + kw_sources[:1]}
+    return [{"module": "OpmVerif.Gen.Units", "file": "Units.lean", "text": "\n".join(o),
+             "sources": [hpp, us_hpp, us_cpp, deck_item_cpp] + kw_sources[:1]},
+            generate_use(repo, measures, listed, item_dims)]
